@@ -98,7 +98,20 @@ def _number_writers():
     ok, detail, n = expect_sites("number-writers",
                                  r"FormulaValue::Number\(|SpillValue::Number\(|NumberCell\s*\{|new_number\(|set_cell_with_number\(",
                                  writers | delegates | readers)
-    return ok, detail, n
+    if not ok:
+        return ok, detail, n
+    # numbers read from files: in the xlsx importer every numeric constructor takes its value from parse_cell_number (unit finite)
+    bad, m2 = [], 0
+    for rel in rs_files("xlsx/src/import"):
+        src, m = code_lines(rel)
+        for mm in re.finditer(r"(FormulaValue::Number\(|SpillValue::Number\(|NumberCell\s*\{\s*v\s*:)\s*", m):
+            m2 += 1
+            tail = m[mm.end():mm.end() + 40].lstrip()
+            if not tail.startswith("parse_cell_number("):
+                bad.append(f"{rel}:{src.count(chr(10), 0, mm.start()) + 1}")
+    if bad:
+        return False, "number-writers: a numeric cell value in the xlsx importer is not taken from parse_cell_number: " + "; ".join(bad[:5]), n + m2
+    return True, detail + f"; {m2} importer sites, all through parse_cell_number", n + m2
 
 
 @scan("date-offset-sites")
